@@ -2,6 +2,7 @@ package main
 
 import (
 	"fmt"
+	"strconv"
 	"go/constant"
 	"go/token"
 	"go/types"
@@ -767,6 +768,12 @@ func (e *Engine) call(fn *ssa.Function, args []any, bind []any) any {
 						f.env[ph] = SymInt{sym}
 					}
 					e.cut.vals[ph.Comment] = f.env[ph]
+				}
+				for name := range e.cut.ranges {
+					if _, ok := e.cut.vals[name]; !ok {
+						e.inconclusive = append(e.inconclusive, "loop cut of "+e.cut.fn+": the loop no longer carries a variable named "+strconv.Quote(name)+" (the lemma harness is tied to the loop's shape and must be adapted)")
+						panic(pathEnd{"UNSUPPORTED loop cut does not match the loop"})
+					}
 				}
 			case 2: // back at the header after exactly one iteration: hand pre- and post-state to the harness checker
 				post := map[string]any{}
